@@ -66,11 +66,20 @@ class Outcome:
 
 def run_verus_unit(prop, unit, workdir, out, tier, known):
     tpl = os.path.join(VERIF, 'units', 'verus', unit + '.rs')
+    degraded = []
     try:
         text, meta = assemble.assemble(tpl, REPO)
-    except assemble.LostAnchor as ex:
-        out.undecided.append('%s: lost anchor: %s' % (unit, ex))
-        return
+    except assemble.LostAnchor as ex0:
+        # degraded mode: a function was restructured (loop / statement / rewrite anchor gone). Annotations that refer to code which
+        # no longer exists are dropped and the unit is verified without them. A pass is a proof; a definite failure of a contract
+        # clause is an obligation that held on the unchanged tree and no longer does (reported, no failing input); anything else is undecided.
+        try:
+            text, meta = assemble.assemble(tpl, REPO, lenient=True)
+            degraded = meta.get('dropped_anchors', [])
+            out.notes.append('%s: DEGRADED MODE, annotations dropped because their anchors are gone: %s' % (unit, '; '.join(degraded)[:1500]))
+        except assemble.LostAnchor as ex:
+            out.undecided.append('%s: lost anchor: %s' % (unit, ex))
+            return
     except assemble.TemplateError as ex:
         out.undecided.append('%s: template error: %s' % (unit, ex))
         return
@@ -156,7 +165,8 @@ def run_verus_unit(prop, unit, workdir, out, tier, known):
         name = '%s/%s/%s [%s]' % (unit, reg, fl['message'], clause)
         sites = ' | '.join('%s: %s' % (l[0], l[1]) for l in fl['labels'] if l[1])
         v = {'obligation': name, 'unit': unit, 'fn': reg, 'message': fl['message'], 'clause': clause,
-             'sites': sites, 'rendered': fl['rendered'], 'backend': 'verus', 'cex': None}
+             'sites': sites, 'rendered': fl['rendered'] + ('\n\nDEGRADED MODE: annotations whose anchors are gone were dropped: ' + '; '.join(degraded) if degraded else ''),
+             'backend': 'verus', 'cex': None}
         if any(x['obligation'] == name for x in out.violations + out.known):
             continue
         k = match_known(known, prop, name, sites + ' ' + clause)
@@ -165,9 +175,37 @@ def run_verus_unit(prop, unit, workdir, out, tier, known):
             out.known.append(v)
         else:
             out.violations.append(v)
-    # samples
-    for f in meta['functions'][:3]:
-        pass
+    if tier == 'thorough':
+        # (a) vacuity: every function under contract must be able to reach its body under its precondition
+        try:
+            vtext, vmeta = assemble.assemble(tpl, REPO, vacuity=True)
+            vpath = os.path.join(workdir, 'unit_%s_vac.rs' % unit)
+            open(vpath, 'w').write(vtext)
+            vres = verus_run.run_verus(vpath, vmeta, workdir, rlimit=UNIT_RLIMIT.get(unit))
+            out.cmds.append(vres['cmd'].replace(workdir, '<scratch>') + '   # vacuity probes')
+            probed = set(f['region'] for f in vres['failures'] if 'VACUITY-PROBE' in (f['clause'] or '') or f['message'].startswith('assertion failed'))
+            nprobe = 0
+            for f in vmeta['functions']:
+                if f['canary'] or f.get('lemma') or f.get('known') or prop not in f['serves']:
+                    continue
+                nprobe += 1
+                if vres['status'] == 'undecided':
+                    continue
+                if f['id'] not in probed:
+                    out.undecided.append('%s: precondition of %s is unsatisfiable (assert(false) verified at entry) => vacuous contract' % (unit, f['id']))
+            if vres['status'] == 'undecided':
+                out.notes.append('%s: vacuity run undecided: %s' % (unit, vres.get('reason')))
+            out.samples.append({'unit': unit, 'vacuity_probes': nprobe, 'probes_that_failed_as_required': len([1 for f in vmeta['functions'] if f['id'] in probed])})
+        except assemble.LostAnchor as ex:
+            out.undecided.append('%s: vacuity assembly lost anchor: %s' % (unit, ex))
+        # (b) stability: the whole unit must also verify under a second solver seed
+        sres = verus_run.run_verus(path, meta, workdir, rlimit=max(40, UNIT_RLIMIT.get(unit) or 0), timeout=1800,
+                                   extra=['--smt-option', 'smt.random_seed=23'])
+        out.cmds.append(sres['cmd'].replace(workdir, '<scratch>') + '   # second seed')
+        if sres['status'] == 'ok' or (sres['status'] == 'failed' and not _real_failures(sres)):
+            out.samples.append({'unit': unit, 'second_seed': 'verified'})
+        else:
+            out.notes.append('%s: second solver seed did not reproduce the proof (%s): instability, reported, not an alarm' % (unit, sres.get('reason') or sorted(_real_failures(sres))[:2]))
     out.samples.append({'unit': unit, 'verus_verified': res['verified'], 'verus_errors_incl_canaries': res['errors'],
                         'smt_ms': res.get('smt_ms'), 'total_ms': res.get('total_ms')})
     return res, meta, text
@@ -232,6 +270,7 @@ def write_evidence(prop, tier, seed, out, wall):
             'extraction_rewrites': out.rewrites,
             'samples': samples or [{'note': 'no obligations'}],
             'explanation': cfg['claim'],
+            'unit_runs': out.samples,
             'undecided': out.undecided,
             'known_findings_reported': [k['obligation'] for k in out.known],
             'notes': out.notes,
